@@ -286,10 +286,47 @@ def f10_class(du, start, delta):
     return final_lag < 0 and final_lag % 1 != 0.0
 
 
+class _Raised:
+    """What a call returned when it raised: unequal to every value, keeps the exception for the report."""
+
+    def __init__(self, kind, msg):
+        self.kind, self.msg = kind, msg
+
+    def __eq__(self, other):
+        return False
+
+    def __ne__(self, other):
+        return True
+
+    __hash__ = None
+
+    def __repr__(self):
+        return f"<raised {self.kind}: {self.msg}>"
+
+    __str__ = __repr__
+
+
+class _Safe:
+    def __init__(self, mod):
+        self._mod = mod
+
+    def __getattr__(self, name):
+        f = getattr(self._mod, name)
+        if not callable(f):
+            return f
+
+        def g(*a, **k):
+            try:
+                return f(*a, **k)
+            except Exception as ex:  # noqa: BLE001
+                return _Raised(type(ex).__name__, str(ex))
+        return g
+
+
 def direct_oracles(ctx, n_pairs):
     """Property evaluated directly on the real functions.  Returns list of failing inputs
     (dict) outside the known-finding class; known-class failures are counted."""
-    du = impl()
+    du = _Safe(impl())      # an exception on a valid in-range argument is a failing result, not a crash of the check
     rng = random.Random(ctx.seed * 104729 + 5)
     fails = []
     one = datetime.timedelta(days=1)
@@ -442,6 +479,20 @@ def direct_oracles(ctx, n_pairs):
             if du.resolution_delta(pe, (q, "month"), neg) != du.add_months(pe, sgn * q) or \
                du.resolution_delta(pe, (q, "day"), neg) != pe + datetime.timedelta(days=sgn * q):
                 fails.append({"law": "resolution_delta", "date": str(pe), "q": q, "negative": neg})
+    # refusals both ways: unknown units are refused, the documented ones are not; zero shifts are the identity
+    some = datetime.date(2021, 2, 28)
+    for bad_unit in ("year", "quarter", "week", "", "hours", "Months "[:0] + "mths"):
+        got_ = du.calculate_dev_lag(some, some, bad_unit)
+        if not (isinstance(got_, _Raised) and got_.kind == "ValueError"):
+            fails.append({"law": "unit-refusal", "unit": bad_unit, "got": repr(got_)})
+    for d0 in [x for x in bd if x.year >= 1970][:200]:      # before 1970 a zero shift of a day-1 date carries F10 (listed)
+        for z in (0, 0.0, -0.0):
+            if du.add_months(d0, z) != d0:
+                fails.append({"law": "zero-shift", "d": str(d0), "k": repr(z), "got": str(du.add_months(d0, z))})
+                break
+        if du.resolution_delta(d0, (0, "day")) != d0 or du.resolution_delta(d0, (0, "month"), True) != d0:
+            fails.append({"law": "zero-shift", "d": str(d0), "k": "resolution_delta 0", "got": "moved"})
+    ctx.hist("oracle:unit-refusal+zero-shift", 206)
     ctx.hist("oracle:unit-dispatch", 3000)
     ctx.count(evaluations=n + nshift + 20000 + 1572 + 3000)
     return fails
